@@ -156,6 +156,7 @@ ModeSize(w) == IF w <= 8 THEN 1 ELSE IF w <= 16 THEN 2 ELSE IF w <= 32 THEN 4 EL
 (* started at an eightbyte boundary; its classes are then moved to the member's first eightbyte and, when *)
 (* the member straddles one more eightbyte than it has classes, each class is also merged into the next   *)
 (* eightbyte; array elements are classified once and the classes repeated.                                *)
+(* Deviation "zc": a zero-width bit-field of a struct counts as an INTEGER field (gcc >= 12.1 ignores it). *)
 RECURSIVE Cls(_, _, _), ClsMs(_, _, _, _, _, _), ClsArr(_, _, _, _)
 
 (* gcc classifies the element type once, at the array's own offset, and repeats its classes over the   *)
@@ -189,7 +190,11 @@ ClsMs(T, lay, off, i, acc, v) ==
             (* whole argument is MEMORY                                                                         *)
             THEN IF off % ModeSize(m.w) # 0 THEN MemRes
                  ELSE ClsMs(T, lay, off, i + 1, MergeF(acc, ((off \div 8) :> "INTEGER")), v)
-            ELSE IF m.w = 0 THEN ClsMs(T, lay, off, i + 1, acc, v)     \* in a struct zero-width bit-fields are not fields
+            ELSE IF m.w = 0
+            THEN IF "zc" \in v       \* deviation: INTEGER for the eightbyte of the storage unit that absorbs it
+                 THEN LET b == (8 * off) + lay.pl[i].bit
+                      IN ClsMs(T, lay, off, i + 1, MergeF(acc, ((IF lay.pl[i].bit > 0 THEN (b - 1) \div 64 ELSE b \div 64) :> "INTEGER")), v)
+                 ELSE ClsMs(T, lay, off, i + 1, acc, v)     \* in a struct zero-width bit-fields are not fields
             ELSE LET b == (8 * off) + lay.pl[i].bit
                      g == [j \in (b \div 64)..((b + m.w - 1) \div 64) |-> "INTEGER"]
                  IN ClsMs(T, lay, off, i + 1, MergeF(acc, g), v)
@@ -229,16 +234,30 @@ Classes(T, v) ==
       n == (L(T, {}).sz + 7) \div 8
   IN IF r.mem THEN <<"MEMORY">> ELSE [j \in 1..n |-> At(r.c, j - 1)]
 
+(* does T contain a struct in which a bit-field of non-zero width directly follows another one *)
+RECURSIVE HasBfPair(_)
+HasBfPair(T) ==
+  IF T.k = "s" THEN FALSE
+  ELSE IF T.k = "a" THEN HasBfPair(T.el)
+  ELSE \/ T.k = "st" /\ \E i \in 2..Len(T.ms) : T.ms[i].m = "b" /\ T.ms[i].w > 0 /\ T.ms[i - 1].m = "b" /\ T.ms[i - 1].w > 0
+       \/ \E i \in 1..Len(T.ms) : T.ms[i].m # "b" /\ HasBfPair(T.ms[i].ty)
+
+(* classification deviations that change the classes of T (each alone, or only both together) *)
+ClsDev(T) ==
+  LET c == Classes(T, {})
+      one == {f \in {"nc", "zc"} : Classes(T, {f}) # c}
+  IN IF one # {} THEN one ELSE IF Classes(T, {"nc", "zc"}) # c THEN {"nc", "zc"} ELSE {}
+
 Pred(T, v) == LET lay == L(T, v) IN [sz |-> lay.sz, al |-> lay.al, lv |-> Flat(T, "", 0, "", v)]
 (* deviation sets that can matter for T, each with its prediction when it differs from the psABI one *)
 Alts(T, main) ==
   LET app == (IF HasUnnamed(T, FALSE) THEN {"ua"} ELSE {}) \cup (IF HasUnnamed(T, TRUE) THEN {"za", "zu"} ELSE {})
-             \cup (IF Pred(T, {"bb"}) # main THEN {"bb"} ELSE {})
+             \cup (IF HasBfPair(T) THEN {"bb"} ELSE {})
       cand == {v \in SUBSET app : v # {} /\ Pred(T, v) # main}
   IN {[v |-> v] @@ Pred(T, v) : v \in cand}
 Row(T) ==
   LET main == Pred(T, {})
-  IN [d |-> T, cls |-> Classes(T, {}), ccls |-> Classes(T, {"nc"}), alts |-> Alts(T, main)] @@ main
+  IN [d |-> T, cls |-> Classes(T, {}), cdev |-> ClsDev(T), alts |-> Alts(T, main)] @@ main
 
 (* ------------------------------------------------------------ vocabularies *)
 Sc(t) == [k |-> "s", t |-> t]
